@@ -76,6 +76,105 @@ def clip_rule(F, R):
         R.ob('RG-clip', name, ok, 'every reported value is %s the clip' % ('>=' if direction == 'ge' else '<=') if ok else detail, v.file)
 
 
+def pfe_rule(F, R, tier):
+    """|PFE ratio| <= 1 by the triangle inequality needs: the ratio is sqrt(dx² + H²) / Σ sqrt(d_i² + 1) where the segments d_i
+    telescope to dx and H equals the number of segments. Decided with symbolic window values for concrete N."""
+    from .lti import LinEval, Form, NonConst
+    v = view_by_name(F).get('PolarizedFractalEfficiency')
+    if v is None:
+        R.violation('RG-pfe', 'PolarizedFractalEfficiency', 'not found')
+        return
+    m = model(F, v)
+    fed = None
+    for cp, feeds in m.up_vg.child_fed.items():
+        for pc, arg, node in feeds:
+            if arg[0] != 'arg':
+                fed = arg
+    ratio = None
+    if fed is not None:
+        for x in subterms(fed):
+            if x[0] == 'op' and x[1] == 'div' and x[2][0][0] == 'op' and x[2][0][1] == 'sqrt' and any(y[0] == 'fold' for y in subterms(x[2][1])):
+                ratio = x
+                break
+    if ratio is None:
+        R.violation('RG-pfe', 'PolarizedFractalEfficiency:shape', 'the value fed to the moving average is not sqrt(dx² + H²) / Σ sqrt(d² + 1)', v.file)
+        return
+    num_arg = ratio[2][0][2][0]
+    den = ratio[2][1]
+    probs = set()
+    checked = 0
+    for N in range(3, (10 if tier == 'quick' else 33)):
+        st = {'q_vals': [Form({'q%d' % j: 1.0}) for j in range(N)], 'window_len': N}
+        ev = LinEval(st, m.up_vg.loops)
+        # numerator: powi(DX, 2) + powi(H, 2)
+        if not (num_arg[0] == 'op' and num_arg[1] == 'add'):
+            probs.add('shape')
+            break
+        DX = H = None
+        for part in num_arg[2]:
+            if part[0] == 'op' and part[1] == 'powi':
+                try:
+                    f = ev.ev(part[2][0])
+                except NonConst:
+                    continue
+                if isinstance(f, Form) and f.is_const():
+                    H = f.const()
+                elif isinstance(f, Form):
+                    DX = f
+        folds = [x for x in subterms(den) if x[0] == 'fold']
+        if DX is None or H is None or not folds:
+            probs.add('shape')
+            break
+        fd = folds[0]
+        L, key, nxt = fd[1], fd[2], fd[4]
+        segs = []
+        unit = True
+        try:
+            idxs = ev.indices(L)
+        except NonConst:
+            probs.add('shape')
+            break
+        for i in idxs:
+            ev.idx[L] = i
+            ev.mu[(L, key)] = Form({'acc': 1.0})
+            for y in subterms(nxt):
+                if y[0] == 'op' and y[1] == 'sqrt':
+                    inner = y[2][0]
+                    if inner[0] == 'op' and inner[1] == 'add':
+                        for part in inner[2]:
+                            if part[0] == 'op' and part[1] == 'powi':
+                                segs.append(ev.ev(part[2][0]))
+                            else:
+                                try:
+                                    c = ev.ev(part)
+                                    if not (isinstance(c, Form) and c.is_const() and c.const() == 1.0):
+                                        unit = False
+                                except NonConst:
+                                    unit = False
+        ev.idx.pop(L, None)
+        ev.mu.pop((L, key), None)
+        checked += 1
+        total = Form()
+        for sgm in segs:
+            if isinstance(sgm, Form):
+                total = total.plus(sgm)
+        total = Form({a: c for a, c in total.items() if abs(c) > 1e-12})
+        dxn = Form({a: c for a, c in DX.items() if abs(c) > 1e-12})
+        if not unit:
+            probs.add('unit-step')
+        if abs(H - len(segs)) > 1e-9:
+            probs.add('extent!=segments')
+        if total != dxn:
+            probs.add('segments-do-not-span-dx')
+    for pr in sorted(probs):
+        msg = {'extent!=segments': 'the horizontal extent under the numerator root (N) differs from the number of summed unit steps (N−2): on a constant window the ratio is N/(N−2) > 1',
+               'segments-do-not-span-dx': 'the summed segments do not telescope to the numerator\'s x_t − x_(t−N+1): the oldest step of the window is not in the path length',
+               'unit-step': 'a path segment is not sqrt(d² + 1)', 'shape': 'ratio shape not recognised'}[pr]
+        R.violation('RG-pfe', 'PolarizedFractalEfficiency:' + pr, msg, v.file)
+    R.ob('RG-pfe', 'PolarizedFractalEfficiency', not probs and checked > 0, '|ratio| <= 1 by the triangle inequality: extent = number of unit segments and the segments span dx (N = 3..%d)' % (9 if tier == 'quick' else 32)
+         if not probs else 'see the specific RG-pfe findings', v.file) if not probs else None
+
+
 def run_c07(F, R, tier):
     R.trust('rustc front end; sfa/vg.py; sfa/fsign.py library facts (tanh in [-1,1], sqrt >= 0, x/(x+y) in [0,1] for x,y >= 0, clamp)')
     R.assume('finite inputs; bounds hold in real arithmetic by construction; "a few ulps" is not decided')
@@ -90,7 +189,8 @@ def run_c07(F, R, tier):
     e_lti_props.fisher_feedback(F, R)
     e_rolling.drawdown(F, R)
     e_trend.net_rules(F, R, tier)
+    pfe_rule(F, R, tier)
     R.floor('RG-out', 4)
     R.floor('RG-clip', 2)
-    R.decline('Rsi, MyRSI, HLNormalizer, CTI, PFE, BinaryEntropy, Vsct, Min <= Sma/Alma <= Max, CenterOfGravity and Drawdown < 1 rest on non-negativity '
+    R.decline('Rsi, MyRSI, HLNormalizer, CTI, BinaryEntropy, Vsct, Min <= Sma/Alma <= Max, CenterOfGravity and Drawdown < 1 rest on non-negativity '
               'of running differences of sums or on "a few ulps": value/rounding properties that no domain here can bound — declined')
